@@ -239,7 +239,14 @@ fn no_esc(check: char, match_char: char, previous: char) -> bool {
 /// # Return
 /// * `Token`
 ///
-fn group_tokens(tokens: &Vec<Token>, mut index: usize) -> Token {
+fn group_tokens(tokens: &Vec<Token>, index: usize) -> Token {
+    return group_tokens_from(tokens, index).0;
+} // group_tokens
+
+// Does the work of group_tokens(). Also returns the index at which
+// it stopped: the right parenthesis which closes the group, or the
+// number of tokens.
+fn group_tokens_from(tokens: &Vec<Token>, mut index: usize) -> (Token, usize) {
 
     let mut new_tokens: Vec<Token> = vec![];
     let size = tokens.len();
@@ -250,16 +257,16 @@ fn group_tokens(tokens: &Vec<Token>, mut index: usize) -> Token {
         let the_type = token.get_type();
 
         if the_type == TokenType::LParen {
-            index += 1;
             // Make a GROUP token.
-            let t = group_tokens(tokens, index);
-            // Skip past tokens already processed.
+            let (t, stopped_at) = group_tokens_from(tokens, index + 1);
+            // Skip past tokens already processed. A group inside
+            // the group has more tokens than children.
             // +1 for right parenthesis
-            index += t.number_of_children() + 1;
+            index = stopped_at + 1;
             new_tokens.push(t);
         } else if the_type == TokenType::RParen {
             // Add all remaining tokens to the list.
-            return make_branch_token(TokenType::Group, new_tokens);
+            return (make_branch_token(TokenType::Group, new_tokens), index);
         } else {
             new_tokens.push(token);
         }
@@ -267,9 +274,9 @@ fn group_tokens(tokens: &Vec<Token>, mut index: usize) -> Token {
 
     } // for
 
-    return make_branch_token(TokenType::Group, new_tokens)
+    return (make_branch_token(TokenType::Group, new_tokens), index);
 
-} // group_tokens
+} // group_tokens_from
 
 
 /// group_and_tokens()
